@@ -3,7 +3,7 @@ ALL = ["C%02d" % i for i in range(1, 37)]
 
 BASELINE_OFF = ("cd /repo && GOFLAGS=-mod=mod GOPROXY=off GOSUMDB=off GOTOOLCHAIN=local "
                 "go test -json -vet=off -count=1 -timeout 25m ./...")
-HOOK_COMMITS = ["d9bd3981", "91affb0d", "895625aa"]
+HOOK_COMMITS = ["d9bd3981", "91affb0d", "895625aa", "a0f266b2"]
 
 NOTES = ("Every check: TLC design check of the TLA+ module, then TLC-generated behaviours replayed against /repo's "
          "working tree (harness rebuilt on every run with -tags verif) and/or recorded traces validated by TLC. "
@@ -14,11 +14,54 @@ NOT_APPLICABLE = {
            "neither replay nor trace validation observes individual memory accesses (DESIGN.md section 5)",
 }
 
+SESS = ("Real objects: a bgpServer with a passive peer; the harness is the remote speaker over an in-memory net.Conn handed in through its own tcp.ListenerManagerI; bytes are built by the independent codec harness/wire; state is read through verif-tagged read-only accessors (FSM state, RIB attachment, negotiated options, Adj-RIB-In) and public API (VRF Loc-RIBs, ASN contribution); everything the server writes is decoded by the strict reference decoder.")
+
 _MC = ("TLC explores the bounded %s specification exhaustively (design check of the property as invariants) and every "
        "emitted behaviour (one witness per transition plus seeded simulation runs) is replayed step by step against the "
        "real bio-rd objects with the complete projected state compared after each step")
 
 CHECKS = {
+    "C23": {
+        "text": _MC % "BGPFSM" + " (invariants AttachedIffEstablished, RoutesOnlyWhileEstablished, IdleClosed; action properties "
+                "LeavingEstablished, ErrorsAreNotified; the machine is finite and explored completely). " + SESS,
+        "note": "Trusted: TLC, harness/wire, the accessors. Passive side only (active-side transitions Connect/Active are not driven). After each "
+                "event the adapter waits (<= 3-10 s) until the observation equals the model's state and re-checks after a settle time; a "
+                "KEEPALIVE written before an OPEN-rejecting NOTIFICATION and the choice between message error and FSM error for a malformed "
+                "message in an unexpected state are left open.",
+        "technique": "TLA+ spec BGPFSM + TLC exhaustive check; behaviour replay against a real bgpServer over an in-memory connection",
+    },
+    "C07": {
+        "text": _MC % "BGPFSM" + " restricted to behaviours that reach Established, learn routes and leave through every exit path "
+                "(NOTIFICATION, hold timer expiry, keepalive write failure, malformed UPDATE/header, unexpected OPEN, manual stop) and "
+                "re-establish; LeavingEstablished is the action property. " + SESS,
+        "note": "Trusted: as C23. Hold timer expiry is forced through the ageing accessor; automatic stop and peer disposal use the same code path as manual stop and are not driven separately.",
+        "technique": "TLA+ spec BGPFSM + TLC; behaviour replay against a real bgpServer (Loc-RIB, ASN contribution, Adj-RIBs compared after every event)",
+    },
+    "C21": {
+        "text": _MC % "BGPFSM" + " with every malformed header, OPEN and UPDATE class in OpenSent, OpenConfirm and Established; the model "
+                "prescribes the NOTIFICATION code (subcode within the class's RFC 4271 section 6 set) before the close. " + SESS,
+        "note": "Trusted: as C23. Claimed for the structured mutation classes of the wire grammar, not for arbitrary byte streams (no coverage-guided fuzzing in this family).",
+        "technique": "TLA+ spec BGPFSM + TLC; behaviour replay against a real bgpServer with mutated byte streams from the reference encoder",
+    },
+    "C22": {
+        "text": "BGPFSM!OpenVerdict gives for each of 17 OPEN classes x 6 local configurations the NOTIFICATION (code, subcode) or "
+                "acceptance with hold time = min of both offers; every combination is delivered to a real session in OpenSent; accepted "
+                "sessions go on to Established and exchange UPDATEs encoded with the negotiated options. " + SESS,
+        "note": "Trusted: as C23. Negotiated 4-octet ASN / add-path / multiprotocol are observed through what the session then accepts and through the accessor.",
+        "technique": "TLA+ spec BGPFSM (OpenVerdict) + TLC; behaviour replay against a real bgpServer",
+    },
+    "C19": {
+        "text": _MC % "BGPFSM" + " with 14 malformed UPDATE classes delivered in Established (with and without routes learned, eBGP/iBGP, "
+                "2/4-octet AS, add-path): the model leaves the Adj-RIB-In untouched by the message and resets the session. " + SESS,
+        "note": "Trusted: as C23; structured mutation classes only.",
+        "technique": "TLA+ spec BGPFSM + TLC; behaviour replay against a real bgpServer",
+    },
+    "C20": {
+        "text": _MC % "BGPFSM" + " with valid UPDATEs of 1-2 NLRI (IPv4 classic, MP_REACH/MP_UNREACH IPv6, add-path identifiers, mixed "
+                "announce/withdraw): Applies(u) defines the Adj-RIB-In after the message per NLRI. " + SESS,
+        "note": "Trusted: as C23. Attributes of the installed paths are not compared here (C05/C17 do that); identity is (prefix, path identifier).",
+        "technique": "TLA+ spec BGPFSM + TLC; behaviour replay against a real bgpServer",
+    },
     "C10": {
         "text": _MC % "Sender" + " (invariants Converged: queue empty => peer view = Adj-RIB-Out, QueueWithinAdjOut, NoStale; TLC explores "
                 "every interleaving of AddPath/RemovePath with single buckets of a round and complete flushes; liveness under weak "
